@@ -77,24 +77,28 @@ theorem fully_processed_tree_is_returned_unchanged (σ : Leaves) (s : ProcState)
 
 /-- **The Processor only annotates a single-engine tree**: the SAME tree comes back, no node is created, the payload
 store stays right (`StoreOK`: every payload holds the rows registered for its marker - for the materializations of
-the tree, the rows of the direct evaluation of their targets), and a processed materialization holds a payload. -/
+the tree, the rows of the direct evaluation of their targets), a processed materialization holds a payload, payloads
+are write-once (whatever was stored before is still there, the same object) and new ones sit on Materializations of the
+tree only. -/
 theorem single_engine_tree_is_only_annotated (σ : Leaves) (reg : Nat → Option (List Row)) (e : Engine)
     (hek : e.kind = .iter) (t : Rel) (fuel : Nat) (matAs : Option String) (s : ProcState)
     (hp : t.PlainIter e) (hio : t.IterOK) (hwf : t.WF) (htr : t.Truthful σ) (hkd : keyDetermined σ t = true)
-    (hreg : t.RegOK σ reg) (hs : StoreOK σ reg s.st) (hq : t.sqFree s.sq) (hf : t.size ≤ fuel) :
+    (hreg : t.RegOK σ reg) (hs : StoreOK σ reg s.st) (hq : t.sqFree s.sq) (hac : t.Acyclic) (hf : t.size ≤ fuel) :
     ∃ s', (processRec σ fuel t matAs).run.run s = (.ok (.same, t.procFlag), s') ∧ StoreOK σ reg s'.st ∧
-      s'.nextTemp = s.nextTemp ∧ (t.procFlag = true → (s'.payloadOf t).isSome = true) := by
-  obtain ⟨s', h, P⟩ := process_plain_iter σ reg e hek t fuel matAs s hp hio hwf htr hkd hreg hs hq hf
-  exact ⟨s', h, P.store, P.temp, P.cached⟩
+      s'.nextTemp = s.nextTemp ∧ (t.procFlag = true → (s'.payloadOf t).isSome = true) ∧
+      (∀ o p, s.st.payload o = some p → s'.st.payload o = some p) ∧
+      (∀ o, (s'.st.payload o).isSome = true → (s.st.payload o).isSome = true ∨ o ∈ t.matOids) := by
+  obtain ⟨s', h, P⟩ := process_plain_iter σ reg e hek t fuel matAs s hp hio hwf htr hkd hreg hs hq hac hf
+  exact ⟨s', h, P.store, P.temp, P.cached, P.keep, P.new⟩
 
 /-- **Process, then execute, yields the direct rows** (single iteration engine). -/
 theorem process_then_execute_yields_direct_rows (σ : Leaves) (reg : Nat → Option (List Row)) (e : Engine)
     (hek : e.kind = .iter) (t : Rel) (st : ExecState) (hp : t.PlainIter e) (hio : t.IterOK) (hwf : t.WF)
     (htr : t.Truthful σ) (hkd : keyDetermined σ t = true) (hreg : t.RegOK σ reg) (hs : StoreOK σ reg st)
-    (hf : t.size ≤ defaultFuel) :
+    (hac : t.Acyclic) (hf : t.size ≤ defaultFuel) :
     ∃ ps, processTop σ st {} t = (.ok .same, ps) ∧
       ∃ it s', exec σ t.engine t ps.st = .ok (it, s') ∧ it.rows σ = .ok (sem σ t) :=
-  process_then_execute σ reg e hek t st hp hio hwf htr hkd hreg hs hf
+  process_then_execute σ reg e hek t st hp hio hwf htr hkd hreg hs hac hf
 
 /-- **What processing a multi-engine tree achieves** (every recursion budget, any `materialize_as`, any starting
 state whose payload store is right): the registry of marker contents extends to the fresh nodes (`RegExt`), and
@@ -108,6 +112,21 @@ theorem multi_engine_processing_invariant (σ : Leaves) (sq0 : SqlState) (h0 : s
     ∃ reg', RegExt reg reg' s.nextTemp ∧ ProcMultiOK σ reg' sq0 t s matAs res b s' :=
   process_multi_iter σ h0 t fuel matAs s reg hm hsql T hf res b s' h
 
+/-- **Only the input's materializations gain payloads.**  After `process` on a multi-engine tree of the class, the
+payload store of the iteration engines holds a payload where one was before (WRITE-ONCE: every payload that was there
+is still there, the same object), on a Materialization
+node OF THE INPUT TREE, or on a node the Processor created itself (an allocation id it handed out) - so a Transfer
+node of the input never gains a payload and leaves are untouched; the database-side payload store is unchanged. -/
+theorem only_input_materializations_gain_payloads (σ : Leaves) (sq0 : SqlState) (h0 : sq0.payload 0 = none) (t : Rel)
+    (fuel : Nat) (matAs : Option String) (s : ProcState) (reg : Nat → Option (List Row)) (hm : t.MultiIter)
+    (hsql : t.SqlSrcOK σ sq0) (T : TreeInv σ reg sq0 t s) (hf : t.size ≤ fuel)
+    (res : Res) (b : Bool) (s' : ProcState) (h : (processRec σ fuel t matAs).run.run s = (.ok (res, b), s')) :
+    (∀ o, (s'.st.payload o).isSome = true → (s.st.payload o).isSome = true ∨ o ∈ t.matOids ∨ s.nextTemp ≤ o) ∧
+      (∀ o p, s.st.payload o = some p → s'.st.payload o = some p) ∧ s'.sq = s.sq ∧
+      (∀ o, o ∈ (res.get t).matOids → o ∈ t.matOids ∨ s.nextTemp ≤ o) := by
+  obtain ⟨reg', _, P⟩ := process_multi_iter σ h0 t fuel matAs s reg hm hsql T hf res b s' h
+  exact ⟨P.newp, P.keep, P.inv.sq.trans T.sq.symm, P.mats⟩
+
 /-- **Process a multi-engine tree, execute the result: the rows of direct evaluation.**  Transfers out of a SQL
 engine included: the hook conforms, compiles and runs the source (C17, C02), the rows it returns are the direct
 evaluation of the source, and the operations downstream run in the iteration engine (C01). -/
@@ -116,11 +135,11 @@ theorem multi_engine_process_then_execute_yields_direct_rows (σ : Leaves) (reg 
     (hwf : t.WF) (htr : t.Truthful σ) (hkd : keyDetermined σ t = true) (hreg : t.RegOK σ reg)
     (hb : t.markersBelow tempBase) (hs : StoreOK σ reg st) (hfree : t.sqFree sq)
     (hfresh : ∀ o, tempBase ≤ o → sq.payload o = none) (hfreshSt : ∀ o, tempBase ≤ o → st.payload o = none)
-    (hf : t.size ≤ defaultFuel)
+    (hac : t.Acyclic) (hf : t.size ≤ defaultFuel)
     (res : Res) (ps : ProcState) (h : processTop σ st sq t = (.ok res, ps)) :
     (res.get t).engine = t.engine ∧ (∀ u, u ∈ (res.get t).columns ↔ u ∈ t.columns) ∧
       ∃ it s', exec σ (res.get t).engine (res.get t) ps.st = .ok (it, s') ∧ it.rows σ = .ok (sem σ t) :=
-  process_multi_then_execute σ reg t st sq h0 hm hsql hwf htr hkd hreg hb hs hfree hfresh hfreshSt hf res ps h
+  process_multi_then_execute σ reg t st sq h0 hm hsql hwf htr hkd hreg hb hs hfree hfresh hfreshSt hac hf res ps h
 
 /-- A statically trivial Transfer gets the destination engine's trivial payload: no hook is called, and the node
 that receives the payload is a NEW Transfer (a fresh allocation id) over the untouched target. -/
@@ -207,7 +226,8 @@ example : (match processTop σ1 {} sqS crossT with
     | _ => none) = some [some 1] := by decide +kernel
 
 /-- a selection over a MATERIALIZATION DIRECTLY AFTER A TRANSFER out of the SQL engine: in the class; processing
-succeeds, the new Materialization and the input's one both hold the payload, executing returns the direct rows -/
+succeeds, the new Materialization and the input's one (id 9) both hold the payload, the input's Transfer (id 8) holds
+none, exactly one hook ran, executing returns the direct rows -/
 private def crossM : Rel :=
   .unary (.sel (.fn .gt [.ref ta, .lit 0] none)) (.mat 9 "mx" (.transfer 8 e1 sqlSrc)) [ta]
 example : crossM.MultiIter ∧ crossM.WF ∧ crossM.markersBelow tempBase ∧ crossM.sqFree sqS := by
@@ -217,8 +237,12 @@ example : (match processTop σ1 {} sqS crossM with
     | (.ok res, ps) =>
       (match exec σ1 e1 (res.get crossM) ps.st with
        | .ok (it, _) => ((it.rows σ1).toOption.map (fun rows => rows.map (fun r => r ta)),
-          (ps.st.payload 9).isSome, ps.hooks.length)
-       | .error _ => (none, false, 0))
-    | _ => (none, false, 0)) = (some [some 1], true, 1) := by decide +kernel
+          (ps.st.payload 9).isSome, (ps.st.payload 8).isSome, ps.hooks.length)
+       | .error _ => (none, false, false, 0))
+    | _ => (none, false, false, 0)) = (some [some 1], true, false, 1) := by decide +kernel
+
+/-- the trees above are acyclic (the hypothesis `Rel.Acyclic` of the theorems) -/
+example : matT.Acyclic ∧ multiT.Acyclic ∧ crossT.Acyclic ∧ crossM.Acyclic := by
+  simp [matT, multiT, crossT, crossM, sqlSrc, sqlLeaf, leafP, Rel.Acyclic, Rel.matOids]
 
 end DafRel.Props.C07
